@@ -242,3 +242,73 @@ def _error_region(view, s, other):
             if mir.last_seg(n) == "from_residual" or n.startswith("core::panicking::"):
                 return True
     return False
+
+
+# ---------------------------------------------------------------------------------------------
+# (d) big-endian / little-endian twins guard their input alike.
+
+def _twin_name(name):
+    for a, b in (("_be_", "_le_"), ("_be", "_le"), ("be_", "le_")):
+        if a in name:
+            return name.replace(a, b, 1)
+    return None
+
+
+def run_d(facts, report, config, eng):
+    """For every decoder `X_be..` with a twin `X_le..` in the same impl block that takes a byte / str input: if one of the
+    two owns a guard (abort guard or rejecting branch) that depends on the input's length and the other owns none, the
+    unguarded twin accepts input the guarded one refuses."""
+    groups = {}
+    for b in facts.fn_bodies():
+        if b["kind"] == "Closure" or not b.get("name"):
+            continue
+        groups.setdefault(b["id"].rsplit("::", 1)[0], {})[b["name"]] = b
+    for parent, members in sorted(groups.items()):
+        for name, bb in sorted(members.items()):
+            tw = _twin_name(name)
+            if not tw or tw not in members or "_be" not in name and "be_" not in name:
+                continue
+            bl = members[tw]
+            vb, vl = eng.view(bb["id"]), eng.view(bl["id"])
+            if vb.argc != vl.argc:
+                continue
+            inp = [i for i in range(1, vb.argc + 1) if mir.peel_refs(vb.locals[i]) in ("[u8]", "str")
+                   and vb.locals[i] == vl.locals[i]]
+            if not inp:
+                continue
+            report.count("endianness_twin_decoders")
+            key = "c16.twins|%s" % norm_id(bb["id"])
+
+            def guards(b, view):
+                n = 0
+                summ, evs = eng.analyze(b["id"], collect=True)
+                for e in evs:
+                    if e.kind not in ("branch", "assert"):
+                        continue
+                    if not any(l == "@%d#len" % inp[0] for l in e.labels):
+                        continue
+                    if e.kind == "assert":
+                        continue        # compiler-inserted bounds / overflow checks are not input validation
+                    bi = e.bb[0] if not e.via else None
+                    if e.via:
+                        n += 1          # a guard inside a callee that receives the input
+                        continue
+                    t = view.blocks[bi]["term"]
+                    succs = list(dict.fromkeys(t["t"]))
+                    if view.abort_guard(bi) or (len(succs) == 2 and (_error_region(view, succs[0], succs[1]) or
+                                                                     _error_region(view, succs[1], succs[0]))):
+                        n += 1
+                return n
+
+            gb, gl = guards(bb, vb), guards(bl, vl)
+            if (gb == 0) != (gl == 0):
+                lacking, having = (bl, bb) if gl == 0 else (bb, bl)
+                report.add(Instance(key, "c16.twins", "violation",
+                                    "`%s` validates the length of its input (a rejecting branch / assertion depends on it) but "
+                                    "its byte-order twin `%s` does not: the two decoders accept different sets of inputs" % (
+                                        having["name"], lacking["name"]), lacking["span"],
+                                    {"be": bb["id"], "le": bl["id"], "guards_be": gb, "guards_le": gl}), config)
+            else:
+                report.add(Instance(key, "c16.twins", "ok", "auto: both twins %s" % (
+                    "own a length-dependent guard" if gb else "take any length (no length-dependent guard in either)"),
+                    bb["span"], {"guards_be": gb, "guards_le": gl}), config)
